@@ -704,7 +704,8 @@ Proof.
 Qed.
 
 (* SCRIP grid_area / ESMF elementArea / MPAS areaCell: the supplied areas are face_areas, right after opening
-   and after any reads; without them face_areas appears exactly when it (or face_jacobian) is first read *)
+   and after any reads; without them face_areas appears exactly when it is first read (a face_jacobian read
+   stores nothing, since 3e2684f4) *)
 Theorem c01_reader_areas_carried lon a derived computed rs :
   lz_areas (c01_reader_state lon (Some a)) = Some a /\
   lz_areas (c01_rd_run derived computed (c01_reader_state lon (Some a)) rs) = Some a.
@@ -718,16 +719,16 @@ Proof.
   unfold c01_rd_run. induction rs as [|r rs IH]; intros s0 H0; simpl; [exact H0|].
   destruct r; simpl.
   1,2: apply IH; unfold c01_rd_step; destruct (lz_lon s0); simpl; exact H0.
-  1,2: unfold c01_rd_step; rewrite H0;
-       apply (proj1 (c01_supplied_kept derived computed rs {| lz_lon := lz_lon s0; lz_areas := Some computed |})); reflexivity.
-  apply IH. exact H0.
+  1: unfold c01_rd_step; rewrite H0;
+     apply (proj1 (c01_supplied_kept derived computed rs {| lz_lon := lz_lon s0; lz_areas := Some computed |})); reflexivity.
+  all: apply IH; exact H0.
 Qed.
 
 Example c01_reader_areas_nonvacuous :
   lz_areas (c01_rd_run [] [1 # 2] (c01_reader_state [350 # 1] (Some [130000 # 1; 130007 # 1]))
                       [RdNodeLat; RdFaceJacobian; RdOther; RdFaceAreas]) = Some [130000 # 1; 130007 # 1]
-  /\ lz_areas (c01_rd_run [] [1 # 2] (c01_reader_state [350 # 1] None) [RdNodeLat; RdOther]) = None
-  /\ lz_areas (c01_rd_run [] [1 # 2] (c01_reader_state [350 # 1] None) [RdNodeLat; RdFaceJacobian]) = Some [1 # 2].
+  /\ lz_areas (c01_rd_run [] [1 # 2] (c01_reader_state [350 # 1] None) [RdNodeLat; RdFaceJacobian; RdOther]) = None
+  /\ lz_areas (c01_rd_run [] [1 # 2] (c01_reader_state [350 # 1] None) [RdFaceJacobian; RdFaceAreas]) = Some [1 # 2].
 Proof. vm_compute. repeat split. Qed.
 
 Example c01_access_order_nonvacuous :
